@@ -1,9 +1,335 @@
-"""Extra oracles run at a `check` step (C09, C10)."""
+"""Extra oracles run at a `check` step (C09, C10).
+
+They are *absolute*: expectations are computed by the reference model in numpy, independently
+of rockit (node times from closed-form grids, guesses evaluated by `expr.evalnum`, parameter
+vectors laid out by the model).
+"""
+import casadi as ca
+import numpy as np
+
+from . import expr as E
+from .model import build, flat_cm, program, raw_value
 
 
-def c09_constants(w, act, st, rec, fresh, recF):
-    pass
+def Violation(cls, detail):
+    from .hist import Violation as V
+
+    return V(cls, detail)
+
+
+# ----------------------------------------------------------------------------------------------
+# independent grid model
+# ----------------------------------------------------------------------------------------------
+def norm_grid(g, N):
+    g = g or {"cls": "Uniform"}
+    if g["cls"] in ("Uniform", "Free"):
+        return [k / N for k in range(N + 1)]
+    if g["cls"] == "Geometric":
+        gf = float(g.get("growth", 2))
+        if not g.get("local", False) and N > 1:
+            gf = gf ** (1.0 / (N - 1))
+        w = [gf ** k for k in range(N)]
+        tot = sum(w)
+        out = [0.0]
+        for x in w:
+            out.append(out[-1] + x / tot)
+        return out
+    raise ValueError(g)
+
+
+def horizon_guess(spec):
+    """(t0_guess, T_guess) as the model expects the solver to start from"""
+    ini = dict((x, g) for x, g in spec.initial)
+
+    def one(ts, name):
+        if ts[0] == "num":
+            return float(ts[1])
+        if ts[0] == "par":
+            return float(np.array(raw_value(spec.values[ts[1]])).flatten()[0])
+        if name in ini:
+            return float(ini[name][1])
+        return float(ts[1])
+
+    return one(spec.t0, "t0"), one(spec.T, "T")
+
+
+def times(spec):
+    m = spec.method
+    N, M = m["N"], m.get("M", 1)
+    t0, T = horizon_guess(spec)
+    n = norm_grid(m.get("grid"), N)
+    tc = [t0 + x * T for x in n]
+    ti = []  # integrator nodes (k,i)
+    for k in range(N):
+        dt = (tc[k + 1] - tc[k]) / M
+        for i in range(M):
+            ti.append((k, i, tc[k] + i * dt, dt))
+    return tc, ti
+
+
+def guess_matrix(g, rows, times_, cols_of):
+    """expected physical values, shape rows x len(times_).  cols_of[j] = column index into an array guess"""
+    n = len(times_)
+    out = np.zeros((rows, n))
+    if g is None:
+        return out
+    if g[0] == "num":
+        out[:, :] = float(g[1])
+        return out
+    if g[0] == "arr":
+        a = np.array(raw_value(g[1]), dtype=float)
+        if a.ndim == 1:
+            a = a.reshape((1, -1))
+        if a.shape[1] == 1 and rows > 1 or a.shape == (rows, 1):
+            out[:, :] = a.reshape((rows, 1))
+            return out
+        for j in range(n):
+            out[:, j] = a[:, cols_of[j]]
+        return out
+    if g[0] == "expr":
+        ast = g[1]
+        comps = ast[1:] if ast[0] == "vec" else [ast] * rows
+        for r in range(rows):
+            for j in range(n):
+                out[r, j] = E.evalnum(comps[r], t=times_[j])
+        return out
+    raise ValueError(g)
+
+
+def _eval(opti, rec, e):
+    """value at the starting point (the documented observation point opti.value(expr, opti.initial()));
+    this also covers decision variables that Opti drops from the NLP because nothing depends on them"""
+    e = ca.MX(e)
+    v = opti.debug.value(e, opti.initial())
+    return np.array(ca.DM(v)).reshape(e.shape, order="F") if not isinstance(v, float) else np.array([[v]])
 
 
 def c10_absolute(w, act, st, rec, fresh, recF):
-    pass
+    """the physical starting value of every labelled decision variable equals the model's prediction"""
+    spec = act.spec
+    m = spec.method
+    if m is None or "_opti" not in rec:
+        return
+    opti = rec["_opti"]
+    ocp = act.ocp
+    N, M = m["N"], m.get("M", 1)
+    cls = m["cls"]
+    tc, ti = times(spec)
+    ini = dict((x, g) for x, g in spec.initial)
+    checked = 0
+    covered = None
+
+    def cmp(name, what, got, exp):
+        nonlocal checked
+        got = np.array(got, dtype=float).reshape(exp.shape) if np.size(got) == exp.size else np.array(got, dtype=float)
+        if got.shape != exp.shape or not np.allclose(got, exp, rtol=1e-9, atol=1e-11, equal_nan=True):
+            raise Violation("start-differs", "%s %s: solver starts from %s, guess implies %s (guess %s, method %s N=%d M=%d)" % (
+                name, what, np.round(got, 6).tolist(), np.round(exp, 6).tolist(), ini.get(name), cls, N, M))
+        checked += exp.size
+
+    jac_cols = np.zeros(rec["nx"], dtype=bool)
+
+    def cover(e):
+        try:
+            sp = ca.jacobian(ca.MX(e), opti.x).sparsity()
+            for c in set(sp.get_col()):
+                jac_cols[c] = True
+        except Exception:
+            pass
+
+    for s in spec.syms:
+        name, kind = s["name"], s["kind"]
+        rows = s.get("rows", 1) * s.get("cols", 1)
+        g = ini.get(name)
+        sym = act.syms[name]
+        if kind == "state":
+            e = ocp.sample(sym, grid="control")[1]
+            got = _eval(opti, rec, e)
+            exp = guess_matrix(g, rows, tc, list(range(N + 1)))
+            if cls == "SingleShooting":
+                cmp(name, "at node 0", got[:, :1], exp[:, :1])
+                cover(e[:, 0])
+            else:
+                cmp(name, "at control nodes", got, exp)
+                cover(e)
+            if cls == "DirectCollocation":
+                e = ocp.sample(sym, grid="integrator")[1]
+                tt = [t for (_, _, t, _) in ti] + [tc[-1]]
+                cols = [k for (k, _, _, _) in ti] + [-1]
+                cmp(name, "at integrator nodes", _eval(opti, rec, e), guess_matrix(g, rows, tt, cols))
+                cover(e)
+                tau = ca.collocation_points(m.get("degree", 4), m.get("scheme", "radau"))
+                e = ocp.sample(sym, grid="integrator_roots")[1]
+                tt, cols = [], []
+                for (k, i, t, dt) in ti:
+                    for tj in tau:
+                        tt.append(t + dt * tj)
+                        cols.append(k)
+                cmp(name, "at collocation points", _eval(opti, rec, e), guess_matrix(g, rows, tt, cols))
+                cover(e)
+        elif kind == "control":
+            e = ocp.sample(sym, grid="control")[1][:, :N]
+            cmp(name, "on control intervals", _eval(opti, rec, e), guess_matrix(g, rows, tc[:N], list(range(N))))
+            cover(e)
+        elif kind == "variable":
+            grid = s.get("grid", "")
+            if grid == "":
+                e = ocp.value(sym)
+                cmp(name, "(global)", _eval(opti, rec, e).reshape((rows, 1)), guess_matrix(g, rows, [tc[0]], [0]))
+                cover(e)
+            elif s.get("include_last"):
+                e = ocp.sample(sym, grid="control")[1]
+                cmp(name, "at control nodes", _eval(opti, rec, e), guess_matrix(g, rows, tc, list(range(N + 1))))
+                cover(e)
+            else:
+                e = ocp.sample(sym, grid="control")[1][:, :N]
+                cmp(name, "on control intervals", _eval(opti, rec, e), guess_matrix(g, rows, tc[:N], list(range(N))))
+                cover(e)
+        elif kind == "algebraic" and cls == "DirectCollocation":
+            deg = m.get("degree", 4)
+            tau = ca.collocation_points(deg, m.get("scheme", "radau"))
+            e = ocp.sample(sym, grid="integrator_roots")[1]
+            tt, cols = [], []
+            for (k, i, t, dt) in ti:
+                for tj in tau:
+                    tt.append(t + dt * tj)
+                    cols.append(k)
+            cmp(name, "at collocation points", _eval(opti, rec, e), guess_matrix(g, rows, tt, cols))
+            cover(e)
+    t0g, Tg = horizon_guess(spec)
+    if spec.T[0] == "free":
+        e = ocp.value(ocp.T)
+        cmp("T", "", _eval(opti, rec, e).reshape((1, 1)), np.array([[Tg]]))
+        cover(e)
+    if spec.t0[0] == "free":
+        e = ocp.value(ocp.t0)
+        cmp("t0", "", _eval(opti, rec, e).reshape((1, 1)), np.array([[t0g]]))
+        cover(e)
+    w.probe("c10_start_values_checked")
+    w.stats["probes"]["c10_entries_checked"] = w.stats["probes"].get("c10_entries_checked", 0) + checked
+    unc = int(rec["nx"] - jac_cols.sum())
+    if unc:
+        w.stats["probes"]["c10_unlabelled_decision_vars"] = w.stats["probes"].get("c10_unlabelled_decision_vars", 0) + unc
+        # never given a guess by the model's account -> must start at zero
+        x0 = np.asarray(rec["x0"])
+        if np.any(np.abs(x0[~jac_cols]) > 1e-12):
+            w.probe("c10_unlabelled_nonzero")
+    # guesses never change the objective or the constraints
+    if spec.initial:
+        sp2 = spec.clone()
+        sp2.initial = []
+        try:
+            bare = build(program(sp2), "bare")
+            recB = w.handoff(bare)
+        except Exception:
+            recB = None
+        if recB is not None:
+            for k in ("nx", "ng", "np"):
+                if rec[k] != recB[k]:
+                    raise Violation("guess-changes-nlp", "sizes differ with/without guesses: %s %d vs %d" % (k, rec[k], recB[k]))
+            from .seams import _close
+
+            if not (_close(rec["f"][1:], recB["f"][1:]) and all(_close(a, b) for a, b in zip(rec["g"][1:], recB["g"][1:]))
+                    and _close(rec["lbg"], recB["lbg"]) and _close(rec["ubg"], recB["ubg"])):
+                raise Violation("guess-changes-nlp", "objective / constraints at the probe points differ with and without the guesses")
+            w.probe("c10_nlp_unchanged_by_guesses")
+
+
+def c10_edit_raised(w, act, st, step, e):
+    if step["op"] == "set_initial" and step.get("expect") != "reject":
+        raise Violation("guess-raises", "set_initial(%s, %s) raised %s: %s [method %s]" % (
+            step["x"], step["g"], type(e).__name__, str(e)[:200], (act.spec.method or {}).get("cls")))
+
+
+def c10_fresh_failure(w, act, err):
+    """the final specification does not transcribe: is a guess to blame?"""
+    spec = act.spec
+    if not spec.initial:
+        return
+    sp2 = spec.clone()
+    sp2.initial = []
+    try:
+        bare = build(program(sp2), "bare")
+        w.handoff(bare)
+    except Exception:
+        return  # ill-posed for other reasons
+    raise Violation("guess-raises", "the specification transcribes without its initial guesses but raises with them: %s: %s [guesses %s, method %s]" % (
+        type(err).__name__, str(err)[:200], spec.initial, (spec.method or {}).get("cls")))
+
+
+# ----------------------------------------------------------------------------------------------
+# C09
+# ----------------------------------------------------------------------------------------------
+def c09_constants(w, act, st, rec, fresh, recF):
+    """values written in as constants: global / matrix / horizon parameters are replaced by numbers"""
+    spec = act.spec
+    consts = {}
+    for p in spec.names("parameter"):
+        s = spec.sym(p)
+        if s.get("grid", "") == "" and p in spec.values:
+            consts[p] = raw_value(spec.values[p])
+    if not consts:
+        return
+    # a guess expression may not mention parameters in this workload, so guesses carry over unchanged
+    try:
+        hard = build(program(spec, consts=consts), "const")
+        recC = w.handoff(hard)
+    except Exception as e:
+        raise Violation("constants-version-raises", "the OCP with the values written in as constants does not transcribe: %s %s" % (type(e).__name__, str(e)[:200]))
+    from .seams import _close
+
+    for k in ("nx", "ng"):
+        if rec[k] != recC[k]:
+            raise Violation("param-vs-constant:size", "%s: %d (parametric) vs %d (constants)" % (k, rec[k], recC[k]))
+    for what, a, b in (("f", rec["f"], recC["f"]), ("lbg", rec["lbg"], recC["lbg"]), ("ubg", rec["ubg"], recC["ubg"]), ("x0", rec["x0"], recC["x0"])):
+        if not _close(a, b, rtol=1e-8, atol=1e-10):
+            raise Violation("param-vs-constant:" + what, "%s differs between the parametric OCP and the one with constants: %s vs %s" % (
+                what, np.round(np.asarray(a, dtype=float), 8).tolist()[:8], np.round(np.asarray(b, dtype=float), 8).tolist()[:8]))
+    for i, (a, b) in enumerate(zip(rec["g"], recC["g"])):
+        if not _close(a, b, rtol=1e-8, atol=1e-10):
+            raise Violation("param-vs-constant:g", "g differs at probe %d between the parametric OCP and the one with constants" % i)
+    w.probe("c09_constants_equal")
+    # the solver-visible parameter vector, predicted entry by entry by the model
+    created = expected_p(spec)
+    if created is not None and "_opti" in rec:
+        opti = rec["_opti"]
+        adv = opti.advanced
+        exp = []
+        try:
+            for sym in ca.symvar(opti.p):
+                i = adv.get_meta(sym).i
+                exp += list(created[i])
+        except Exception as e:
+            w.probe("c09_param_vector_unpredictable")
+            return
+        if len(exp) != len(rec["p"]) or not _close(exp, rec["p"]):
+            raise Violation("param-vector", "solver-visible parameter vector %s, model predicts %s" % (np.round(rec["p"], 6).tolist(), np.round(exp, 6).tolist()))
+        w.probe("c09_param_vector_predicted")
+
+
+def expected_p(spec):
+    """the Opti parameters in the order rockit's sampling methods create them, with the value the model
+    expects in each: globals in declaration order, then per-interval (one per interval k = column k),
+    then per-interval+ (N+1, the extra one for the final node)."""
+    m = spec.method
+    if m is None or spec.names("algebraic") or m["cls"] not in ("SingleShooting", "MultipleShooting", "DirectCollocation"):
+        return None
+    N = m["N"]
+    out = []
+    for grid, il, ncol in (("", False, None), ("control", False, N), ("control", True, N + 1)):
+        for p in spec.names("parameter"):
+            s = spec.sym(p)
+            if s.get("grid", "") != grid or bool(s.get("include_last", False)) != il:
+                continue
+            rows, cols = s.get("rows", 1), s.get("cols", 1)
+            v = raw_value(spec.values[p])
+            if ncol is None:
+                out.append(flat_cm(v, rows, cols))
+            else:
+                a = np.array(v, dtype=float)
+                if a.ndim == 0:
+                    a = np.full((rows, ncol), float(a))
+                a = a.reshape((rows, ncol))
+                for k in range(ncol):
+                    out.append([float(x) for x in a[:, k]])
+    return out
